@@ -1,6 +1,6 @@
 """C01 — legal move generation: structural clauses C01-EP, C01-KING, C01-CASTLE, C01-FLAGS, C01-CHECK
 (DESIGN.md §3)."""
-from facts import (short, decision_paths, norm, show, walk, strip_refs, deep_strip, is_call_to, callee_name, find_calls, guard_conditions,
+from facts import (cmp_op, short, decision_paths, norm, show, walk, strip_refs, deep_strip, is_call_to, callee_name, find_calls, guard_conditions,
                    option_guard, mentions_call)
 
 EXPLANATION = (
@@ -130,6 +130,22 @@ def rule_pinray(fx, rep):
             d = deep_strip(e)
             if pol is False and isinstance(d, tuple) and d and d[0] == "call" and d[1].endswith("Bitboard::contains") and deep_strip(d[2][0])[:2] == ("arg", dl):
                 why = "it is generated only if the pawn is not diagonally pinned"
+        # a comparison of "the pawn is pinned" with "the target lies on a pin ray" (`pinned(start) == on_ray(target)`): the mask is
+        # the union of all diagonal pin rays, so an *unpinned* pawn whose target happens to lie on another piece's ray is refused
+        for (e, pol, w) in (guard_conditions(f, bb, expand_named=True) if bb is not None else []):
+            co = cmp_op(deep_strip(e)) if isinstance(deep_strip(e), tuple) else None
+            if not co or co[0] not in ("Eq", "Ne") or pol is None:
+                continue
+            def is_pin_test(x):
+                x = deep_strip(x)
+                return isinstance(x, tuple) and x and x[0] == "call" and str(x[1]).endswith("Bitboard::contains") and deep_strip(x[2][0])[:2] == ("arg", dl)
+            if is_pin_test(co[1]) and is_pin_test(co[2]):
+                same = (co[0] == "Eq") == bool(pol)
+                # allowed(pinned_start, target_on_ray) must hold for (False, True) and (False, False)
+                if same:
+                    why = "it is generated only if `pawn is pinned` equals `target lies on a pin ray`: an unpinned pawn whose target lies on another piece's pin ray is refused"
+                else:
+                    why = "it is generated only if `pawn is pinned` differs from `target lies on a pin ray`: an unpinned pawn with a target off every pin ray is refused"
         good = why is None
         rep.obligation(good)
         if not good:
@@ -1374,6 +1390,8 @@ def enum_name_of(e):
 GEN = "src/chess/movegen/gen.rs"
 MV = "src/chess/moves.rs"
 MUTANTS = [
+    {"name": "pin test of the en-passant block as pinned(start) == on_ray(target) (seed C01-13a)", "expect": "C01-PINRAY/generate_pawn_captures/en_passant",
+     "edits": __import__("shared_mutants").edits_from_patch("seeded/C01-13a/patch.diff")},
     {"name": "rook filler stops in front of the full blocker subset (seed C01-8a)", "expect": "C01-TABLES/C07-FILL/rook",
      "edits": [("src/chess/movegen/tables/magics.rs", "        let occupancy_subsets = SubsetsOf::new(occupancies);\n\n        for blockers in occupancy_subsets {\n            let idx = table_index_rook(s, blockers);\n\n            unsafe {\n                ATTACKS_TABLE[idx] = attacks::generate_rook_attacks(s, blockers);\n            }\n        }", "        let mut blockers = Bitboard::EMPTY;\n\n        while blockers != occupancies {\n            let idx = table_index_rook(s, blockers);\n\n            unsafe {\n                ATTACKS_TABLE[idx] = attacks::generate_rook_attacks(s, blockers);\n            }\n\n            blockers = (blockers - occupancies) & occupancies;\n        }")]},
     {"name": "en passant refused for every diagonally pinned pawn (seed C17-4a)", "expect": "C01-PINRAY/generate_pawn_captures/en_passant",
